@@ -19,6 +19,38 @@ FMT = "%(asctime)s %(name)s %(levelname)s %(message)s"
 STATE = {}
 
 
+def parse_both_ways(GeckoSnapshot, path):
+    """Parse a log file the way the checks always did (library logging off) and again the way the
+    tools do after their `logfile` command (every geckolib logger at DEBUG): behaviour must not
+    depend on whether somebody is listening.  Returns (snapshots, problem or None)."""
+    snaps = GeckoSnapshot.parse_log_file(path)
+    lg = logging.getLogger("geckolib")
+    old_level, old_disable = lg.level, logging.root.manager.disable
+    nh = logging.NullHandler()
+    try:
+        logging.disable(logging.NOTSET)
+        lg.setLevel(logging.DEBUG)
+        lg.addHandler(nh)
+        again = GeckoSnapshot.parse_log_file(path)
+    finally:
+        lg.removeHandler(nh)
+        lg.setLevel(old_level)
+        logging.disable(old_disable)
+    def field(x, f):
+        try:
+            return getattr(x, f)
+        except Exception as e:  # a header field that is absent raises on access: the same both ways
+            return ("raises", type(e).__name__)
+
+    FIELDS = ("bytes", "packtype", "config_version", "log_version", "intouch_EN", "intouch_CO")
+    key = lambda ss: [tuple(field(x, f) for f in FIELDS) for x in ss]  # noqa
+    same = key(snaps) == key(again)
+    if same:
+        return snaps, None
+    diff = [f for a, b in zip(snaps, again) for f in FIELDS if field(a, f) != field(b, f)]
+    return snaps, f"parsing with DEBUG logging enabled gives {len(again)} snapshot(s) with {[len(x.bytes) for x in again]} byte block(s), with logging off {len(snaps)} with {[len(x.bytes) for x in snaps]}; differing fields {sorted(set(diff))}"
+
+
 class Capture:
     """Attach a file handler with the shell's logfile format to the geckolib loggers."""
 
@@ -116,7 +148,11 @@ def part_a(sh: Shard, seed, n):
         try:
             with Capture(path, logging.INFO):
                 shell.do_snapshot(name)
-            snaps = GeckoSnapshot.parse_log_file(path)
+            snaps, dbg_problem = parse_both_ways(GeckoSnapshot, path)
+            if dbg_problem:
+                sh.violation("C19:a:logging-dependent", "shell snapshot: " + dbg_problem, wit)
+            else:
+                sh.count("parses_repeated_with_debug_logging")
         except Exception as e:
             d = describe_exc(e)
             sh.violation("C19:a:raise", f"snapshot capture/parse raised {d['type']}: {d['msg']}", dict(wit, exc=d))
@@ -185,7 +221,11 @@ def part_b(sh: Shard, seed, n):
                 logging.getLogger("geckolib.spa").info("Starting spa connection handshake...")
                 for dg in sent:
                     client.dispatch_recevied_data(dg, ("10.0.0.1", 10022))
-            snaps = GeckoSnapshot.parse_log_file(path)
+            snaps, dbg_problem = parse_both_ways(GeckoSnapshot, path)
+            if dbg_problem:
+                sh.violation("C19:b:logging-dependent", "traffic log: " + dbg_problem, wit)
+            else:
+                sh.count("parses_repeated_with_debug_logging")
             got = snaps[-1].bytes if snaps else None
         except Exception as e:
             d = describe_exc(e)
@@ -217,7 +257,9 @@ def part_c(sh: Shard, files):
     for fn in files:
         base = os.path.basename(fn)
         try:
-            snaps = GeckoSnapshot.parse_log_file(fn)
+            snaps, dbg_problem = parse_both_ways(GeckoSnapshot, fn)
+            if dbg_problem:
+                sh.violation("C19:c:logging-dependent", f"shipped file {base}: " + dbg_problem, {"file": base})
         except Exception as e:
             d = describe_exc(e)
             sh.violation("C19:c:parse-raise", f"shipped snapshot file {base} does not parse: {d['type']}: {d['msg']}", d)
